@@ -883,7 +883,18 @@ def monitor_c13(se, stats):
     state = {}       # (conn, chan) -> ("idle",) | ("header",) | ("body", remaining)
     dead = set()     # connections that sent close-ok or were closed
     CHANNEL_MAX, FRAME_MAX = 2047, 65536
+    fmax = {}        # connection -> frame-max it negotiated in an accepted tune-ok (0 = no limit of its own)
     for i, st in enumerate(se["steps"]):
+        f = st["op"].split()
+        if len(f) >= 5 and f[0] == "TUNEOK" and f[2] == "1":
+            try:
+                if 0 < int(f[4]) <= FRAME_MAX:
+                    fmax[int(f[1])] = int(f[4])
+                    stats["negotiated_frame_max"] = sorted(set(stats.get("negotiated_frame_max", []) + [int(f[4])]))
+            except ValueError:
+                pass
+        elif f and f[0] in ("OPEN", "ACCEPT") and len(f) > 1 and f[1].isdigit():
+            fmax.pop(int(f[1]), None)     # a new connection under a reused number starts from the server's limit
         for (c, h, name, args, tail) in frames_of(st):
             stats["frames"] = stats.get("frames", 0) + 1
             if name == "GONE":
@@ -903,8 +914,10 @@ def monitor_c13(se, stats):
                 state[(c, h)] = ("body", int(args[1]))
             elif name == "body":
                 n = int(args[1])
-                if n + 8 > FRAME_MAX:
-                    viol.append({"step": i, "what": "body frame of %d bytes exceeds frame-max" % n})
+                if n + 8 > fmax.get(c, FRAME_MAX):
+                    viol.append({"step": i, "what": "body frame of %d bytes (%d on the wire) on %d.%d exceeds the frame-max %d this connection negotiated (after `%s`)" % (n, n + 8, c, h, fmax.get(c, FRAME_MAX), st["op"])})
+                if n + 8 > 4096:
+                    stats["body_frames_above_4096"] = stats.get("body_frames_above_4096", 0) + 1
                 if cur[0] != "body" or n > cur[1] or n == 0 and cur[1] == 0:
                     viol.append({"step": i, "what": "body frame of %d bytes on %d.%d outside a content block / beyond the announced size (state %s, after `%s`)" % (n, c, h, cur, st["op"])})
                     state[(c, h)] = ("idle",)
